@@ -59,31 +59,52 @@ pub fn css_string_nohash(input: Span) -> PResult<String> {
 }
 
 pub fn css_string_dq(input: Span) -> PResult<CssString> {
-    let (input, parts) = delimited(
+    let (input, mut parts) = delimited(
         tag("\""),
         many0(alt((
-            map_res(is_not("\""), input_to_string),
+            map_res(is_not("\"\\"), input_to_string),
             value("\"".to_string(), tag("\\\"")),
             normalized_escaped_char_q,
         ))),
         tag("\""),
     )
     .parse(input)?;
+    cleanup_escape_ws(&mut parts);
     Ok((input, CssString::new(parts.join(""), Quotes::Double)))
 }
 
 pub fn css_string_sq(input: Span) -> PResult<CssString> {
-    let (input, parts) = delimited(
+    let (input, mut parts) = delimited(
         tag("'"),
         many0(alt((
-            map_res(is_not("'"), input_to_string),
+            map_res(is_not("'\\"), input_to_string),
             value(String::from("'"), tag("\\'")),
             normalized_escaped_char_q,
         ))),
         tag("'"),
     )
     .parse(input)?;
+    cleanup_escape_ws(&mut parts);
     Ok((input, CssString::new(parts.join(""), Quotes::Single)))
+}
+
+/// Remove the space that ends a hex escape where it is not needed.
+fn cleanup_escape_ws(parts: &mut [String]) {
+    for i in 0..parts.len() {
+        // A hex escape, not the escaped space `\ ` itself.
+        if parts[i].len() > 2
+            && parts[i].starts_with('\\')
+            && parts[i].ends_with(' ')
+            && parts
+                .get(i + 1)
+                .and_then(|next| next.chars().next())
+                .is_none_or(|c| {
+                    !c.is_ascii_hexdigit() && c != '\t' && c != ' '
+                })
+        {
+            parts[i].pop();
+        }
+    }
 }
 
 fn normalized_first_escaped_char(input: Span) -> PResult<String> {
